@@ -175,6 +175,28 @@ def run(ctx):
         if r.crash or len(r.results) != e:
             ctx.violation("`%s` holds %s time(s); the documentation (whole string has to match) says %d" % (q, "?" if r.crash else len(r.results), e),
                           {"query": q, "expected_results": e})
+    # one place, several patterns in a row - valid, broken, the same broken one again, the valid one again: each is
+    # judged on its own (results and diagnostics of the run = those of the patterns one at a time)
+    PSEQS = [('"a.c"', '"("', '"("'), ('"("', '"a.c"', '"("', '"("', '"a.c"'), ('"a.c"', '"["', '"["', '"abc"'), ('"x"', '"("', '"("'), ('"abc"', '"a{2"', '"a{2"', '"a{2"', '".*"'),
+             ('".*"', '"*"', '"*"'), ('"a.c"', '"a.c"', '"("', '"a.c"'), ('"(a|"', '"(a|"', '"abc"')]
+    pq = []
+    for ps in PSEQS:
+        for hay in ('"abc"', '"("', '""'):
+            for w in ("?match", "!match"):
+                pq.append(("%s (%s) %s" % (hay, ", ".join(ps), w), ["%s %s %s" % (hay, p_, w) for p_ in ps]))
+            pq.append(("(%s) (|P| (%s =~ P) P)" % (", ".join(ps), hay), ["%s (|P| (%s =~ P) P)" % (p_, hay) for p_ in ps]))
+    allq = [q for q, parts in pq] + sorted({x for _, parts in pq for x in parts})
+    pres = {q: engine.canon_impl(r) for q, r in zip(allq, zw.run_cases([zw.enc(q) for q in allq]))}
+    import collections as _c
+    for q, parts in pq:
+        stats["evaluations"] += 1
+        whole = pres[q]
+        want = _c.Counter(e for p_ in parts for e in pres[p_][1])
+        if whole[0] != "DONE" or any(pres[p_][0] != "DONE" for p_ in parts):
+            continue
+        if _c.Counter(whole[1]) != want:
+            ctx.violation("`%s` yields %s; its patterns one at a time yield %s" % (q, " ".join(whole[1])[:200], " | ".join(" ".join(pres[p_][1]) for p_ in parts)[:300]),
+                          {"query": q, "parts": parts, "kind": "pattern-sequence"})
     # history independence, checked on the implementation directly
     groups = {}
     rr2 = zw.run_cases([zw.enc(q) for q in progs[-300:]])
